@@ -69,7 +69,7 @@ def main() -> int:
         obs = [o for o in obs if o["target"] == rp["key"]["target"]]
 
     # V
-    fields = ("target", "kind", "same_scope", "names_a", "names_b", "front", "outcome", "has_declared", "declared", "dup_paths", "names_found")
+    fields = ("target", "kind", "same_scope", "names_a", "names_b", "front", "outcome", "has_declared", "declared", "dup_paths", "names_found", "module_dups")
     pp = ck.work / "obs_v.json"
     core.write_json(pp, [{k: o[k] for k in fields} for o in obs])
     res = ck.tlc("NamingTrace", what="V: collisions are reported, declared names are distinct", env={"VERIF_OBS": str(pp)}, cont=True, workers=1, timeout=900)
@@ -95,6 +95,8 @@ def main() -> int:
         detail = "%s: %s with %r / %r -> names %s / %s, outcome %s %s" % (o["target"], o["kind"], o["a"], o["b"], o["names_a"], o["names_b"], o["outcome"], (o["detail"] or "")[:120])
         if v["invariant"] == "Inv_DeclaredDistinct":
             detail += "; declared %s" % (o["declared"][:12],)
+        if v["invariant"] == "Inv_NoDuplicateModuleNames":
+            detail += "; bound twice: %s" % (o["module_dups"][:8],)
         ck.violation(key, v["invariant"], case, {k: o[k] for k in ("target", "kind", "a", "b", "names_a", "names_b", "outcome", "declared", "dup_paths", "detail", "exc_site")}, detail)
 
     accepted = [o for o in obs if o["front"] == "accepted"]
